@@ -18,6 +18,10 @@ GRIDS = {
     "G_flip": lambda: fm.UniformGrid((3, 4), axes_increase=[True, False]),
     "H": lambda: fm.UniformGrid((3, 4), spacing=(2.0, 1.0)),  # other geometry, same shape
     "nogrid": lambda: fm.NoGrid(2),
+    # square grid (3x3 cells: a transpose keeps the shape), three layouts
+    "S": lambda: fm.UniformGrid((4, 4)),
+    "S_rev_flip": lambda: fm.UniformGrid((4, 4), axes_reversed=True, axes_increase=[True, False]),
+    "S_flip": lambda: fm.UniformGrid((4, 4), axes_increase=[False, True]),
     # one-dimensional grids (4 cells), x increasing / decreasing
     "L": lambda: fm.UniformGrid((5,)),
     "L_flip": lambda: fm.UniformGrid((5,), axes_increase=[False]),
@@ -64,6 +68,10 @@ def _build(spec, side):
     mask = spec["mask"]
     if mask in ("A", "B", "all-false") and spec["grid"] in ("L", "L_flip"):
         mask = _mask1(mask, grid)
+    elif mask in ("A", "B") and spec["grid"].startswith("S"):
+        mask = _mask(mask + "3", ref_grid=fm.UniformGrid((4, 4)), grid=grid)
+    elif mask == "all-false" and spec["grid"].startswith("S"):
+        mask = np.zeros((3, 3), bool)
     elif mask in ("A", "B", "all-false"):
         mg = grid if isinstance(grid, fm.UniformGrid) else None
         mask = _mask(mask, ref_grid=REF(), grid=mg)
@@ -190,7 +198,12 @@ def h_link(ctx):
         # mask requirement / carried-over mask, physically, in the INPUT's grid layout
         pm = state["mask"]
         if pm in ("A", "B") and isinstance(inf.grid, fm.UniformGrid):
-            want = _mask1(pm, inf.grid) if inf.grid.dim == 1 else _mask(pm, ref_grid=REF(), grid=inf.grid)
+            if inf.grid.dim == 1:
+                want = _mask1(pm, inf.grid)
+            elif tuple(inf.grid.dims) == (4, 4):
+                want = _mask(pm + "3", ref_grid=fm.UniformGrid((4, 4)), grid=inf.grid)
+            else:
+                want = _mask(pm, ref_grid=REF(), grid=inf.grid)
             got = inf.mask
             ctx.check(isinstance(got, np.ndarray) and got.shape == want.shape and bool(np.array_equal(got, want)),
                       "input-mask-not-in-input-grid-layout", {"sig": f"pgrid={state['grid']}:cgrid={c['grid']}"})
@@ -279,7 +292,7 @@ ASSUMPTIONS = ["field interactions are explored in two sub-products (grid x mask
 
 def families(tier):
     q = tier == "quick"
-    allg = [g for g in GRIDS if g not in ("L", "L_flip")]
+    allg = [g for g in GRIDS if g not in ("L", "L_flip") and not g.startswith("S")]
     fams = [
         dict(name="link:grid_x_mask", ref="vf.props.c07:h_link",
              params={"grids": allg, "units": ["m"], "masks": MASKS, "vary_time": False, "vary_foo": False},
@@ -288,6 +301,12 @@ def families(tier):
              params={"grids": ["unset", "L", "L_flip"], "units": ["m"], "masks": MASKS, "vary_time": False,
                      "vary_foo": False},
              bounds="producer x consumer: one-dimensional grid (x increasing / decreasing / unset) x 6 mask options",
+             must_cover=["ok", "meta-error"]),
+        dict(name="link:square_grid_x_mask", ref="vf.props.c07:h_link",
+             params={"grids": ["unset", "S", "S_rev_flip", "S_flip"], "units": ["m"], "masks": ["FLEX", "A", "B", "nomask"],
+                     "vary_time": False, "vary_foo": False},
+             bounds="producer x consumer: square 3x3-cell grid in three layouts (plain, transposed + flipped, flipped) or "
+                    "unset x masks FLEX / two masks no transpose or flip maps onto themselves / nomask",
              must_cover=["ok", "meta-error"]),
         dict(name="link:unstructured_location", ref="vf.props.c07:h_link",
              params={"grids": ["unset", "U_points", "U_cells", "G"], "units": ["m"], "masks": ["FLEX"],
